@@ -424,3 +424,22 @@ package dnsserver
 //@ func MustServerInfoFromContext
 //@   modifies nothing
 //@   ensures si != nil
+
+// ---------------------------------------------------------------------------
+// C03: the credentials of a DoH request reach the device finder unchanged.
+
+//@ import http net/http
+//@ import url net/url
+//@ fun riOfCtx(ctx context.Context) *RequestInfo
+//@ func ContextWithRequestInfo
+//@   modifies nothing
+//@   ensures riOfCtx(ctx) == ri
+//@ func addRequestInfo
+//@   property C03
+//@   requires r != nil
+//@   modifies uiUser, uiPass
+//@   ensures riOfCtx(ctx) != nil
+//@   ensures credentials-forwarded-as-sent: basicAuthOK(r) ==> riOfCtx(ctx).Userinfo != nil &&
+//@             uiUser[riOfCtx(ctx).Userinfo] == basicUser(r) && uiPass[riOfCtx(ctx).Userinfo] == basicPass(r)
+//@   ensures !basicAuthOK(r) ==> riOfCtx(ctx).Userinfo == nil
+//@   ensures r.TLS != nil ==> riOfCtx(ctx).TLSServerName == r.TLS.ServerName
